@@ -225,9 +225,10 @@ def run(ctx):
      ctx.violation('R3', 'SymbolTable.__getstate__', gs.where, f'SymbolTable drops {_dropped(gs)} and restores {_restored(ss)}'))
     rp = m.get_function('loki/types/scope.py', 'Scope._reset_parent')
     src = ast.unparse(rp.node)
-    ok = X.has(src, 'self.symbol_attrs.parent = self.parent.symbol_attrs')
-    (ctx.judge('R3', 'Scope._reset_parent re-links the symbol table') if ok else
-     ctx.violation('R3', 'Scope._reset_parent', rp.where, '_reset_parent does not re-link symbol_attrs.parent'))
+    ctx.wired('R3', 'Scope._reset_parent', rp.where, src, ['self.symbol_attrs.parent = self.parent.symbol_attrs'],
+              '_reset_parent does not re-link symbol_attrs.parent',
+              reshaped_if=lambda tree: any(isinstance(n, ast.Attribute) and isinstance(n.ctx, ast.Store) and n.attr in ('parent', '_parent')
+                                           and 'symbol_attrs' in ast.unparse(n.value) for n in ast.walk(tree)))
     # program units: contents (spec/body/contains, symbol table) are part of the pickled dict, i.e. not in the ignore lists
     for rel, cn in CLASSES[:3]:
         cls = m.get_class(rel, cn)
